@@ -392,6 +392,36 @@ def build(cfg, run):
         for p, name, owner, t0 in env.procs:
             run.proc_info[id(p)] = (len(run.proc_info) + 1, run.node_idx.get(id(owner), -1), name)
         return env
+    if cfg.get("via") == "mesh":
+        # constructs/mesh.py: a grid of machines, every machine feeds its right and lower neighbour
+        from factorysimpy.constructs.mesh import connect_mesh_with_source_sink
+        m = cfg["mesh"]
+        grid = [[{"processing_delay": m["pd"][r % len(m["pd"])][c % len(m["pd"][r % len(m["pd"])])] / float(Q),
+                  "blocking": m.get("blocking", True), "work_capacity": m.get("wc", 1),
+                  "in_edge_selection": m["pin"], "out_edge_selection": m["pout"]} for c in range(m["cols"])] for r in range(m["rows"])]
+        mn, ed, src, snk = connect_mesh_with_source_sink(
+            env, m["rows"], m["cols"], Machine, Buffer, node_kwargs_grid=grid,
+            edge_kwargs={"capacity": m["cap"], "delay": m.get("bdelay", 0) / float(Q)},
+            source_cls=Source, sink_cls=Sink,
+            source_kwargs={"inter_arrival_time": m["iat"] / float(Q), "blocking": True, "out_edge_selection": m["spout"]},
+            sink_kwargs={})
+        ns = [src] + [x for row in mn for x in row] + [snk]
+        es = list(ed.values())         # dict order = connection order
+        for i, obj in enumerate(ns):
+            obj.stats = CounterDict(obj.stats, run, i)
+            nodes[i] = obj
+            run.node_idx[id(obj)] = i
+        for j, obj in enumerate(es):
+            e = cfg["edges"][j]
+            assert obj.src_node is ns[e["src"]] and obj.dest_node is ns[e["dst"]], "mesh wiring differs from the configuration"
+            edges[j] = obj
+            run.edge_idx[id(obj)] = j
+            run.store_edge[id(obj.inbuiltstore)] = j
+        run.nodes = nodes
+        run.edges = edges
+        for p, name, owner, t0 in env.procs:
+            run.proc_info[id(p)] = (len(run.proc_info) + 1, run.node_idx.get(id(owner), -1), name)
+        return env
     order = cfg.get("order") or ([["n", i] for i in range(len(nodes))] + [["e", j] for j in range(len(edges))])
     for what, i in order:
         (mk_node if what == "n" else mk_edge)(i)
